@@ -248,13 +248,15 @@ fn c08_abandoned_read() {
     let _keep = ManuallyDrop::new(shared.clone());
     let t0: u16 = kani::any();
     fp.set_tail(t0);
-    let buf = ReadBuf { shared, owned: None };
+    // NOTE: the in-flight ReadBuf owns nothing (owned: None), its Drop is a no-op apart from the Arc count; it is
+    // wrapped in ManuallyDrop so that the pool's own teardown (c08.pool.new_drop) stays out of this obligation.
+    let buf = ManuallyDrop::new(ReadBuf { shared, owned: None });
     let id: u16 = kani::any();
     kani::assume((id as usize) < P4);
     let got: i32 = kani::any();
     kani::assume(got >= 0 && got as usize <= BS8);
     let fl = libc::IORING_CQE_F_BUFFER | ((id as u32) << libc::IORING_CQE_BUFFER_SHIFT);
-    let freed = crate::io_uring::op::verif_op::abandoned_final_completion::<ReadBuf, u64>(buf, 0, got, fl);
+    let freed = crate::io_uring::op::verif_op::abandoned_final_completion::<ManuallyDrop<ReadBuf>, u64>(buf, 0, got, fl);
     assert!(freed, "state of the abandoned operation reclaimed");
     assert!(fp.tail() == t0.wrapping_add(1), "buffer delivered to an abandoned operation is re-offered to the kernel");
     kani::cover!(true, "end");
